@@ -75,6 +75,8 @@ func (c15) Run(t *tape.Tape, st *Stats) *Violation {
 		want = w
 	}
 	sameType := !opaque && ((helper == 0 && kind == kNRGBA) || (helper == 1 && kind == kRGBA) || (helper == 2 && kind == kRGBA64))
+	simrt.ResetSteps(2000000) // a run of this size takes a few thousand steps; beyond the budget it is a livelock
+	defer simrt.ResetSteps(0)
 	racesBefore := simrt.RaceErrors()
 	var got image.Image
 	var panicked interface{}
@@ -133,6 +135,9 @@ func (c15) Run(t *tape.Tape, st *Stats) *Violation {
 		v := fail("data-race", fmt.Sprintf("%d race report(s), first: %s", races, detail))
 		v.Sig = "data-race:" + coarse
 		return v
+	}
+	if _, ok := panicked.(simrt.StepBudgetExceeded); ok || simrt.Tripped() {
+		return fail("livelock", "step budget of 2000000 instrumented statements exceeded: a worker does not terminate")
 	}
 	if panicked != nil {
 		return fail("panic", fmt.Sprintf("panic: %v", panicked))
